@@ -8,6 +8,7 @@ recursion and every `float` rounding — those links are covered by the correspo
 -/
 import StirVerif.C19.Proofs
 import StirVerif.C19.ProofsConvThm
+import StirVerif.C19.ProofsInfl
 
 namespace StirVerif.C19
 open Finset
@@ -46,7 +47,10 @@ theorem C19_conv_symmetric {K : Type} [CommSemiring K]
   convSymAt_eq jmax k inMin inMax x i hj hi
 
 /-- `ArrayFilter2DUsingConvolution::do_it` is the 2-D convolution — PARTIAL: only when `is_trivial()` answers false
-    (see `C19_conv2d_is_trivial_fails`: `is_trivial()` looks at the outer extent and at the coefficient at the origin only). -/
+    (see `C19_conv2d_is_trivial_fails`: `is_trivial()` looks at the outer extent and at the coefficient at the origin only).
+    Since the extension round the correspondence run also drives the in-place `operator()(Array&)` (copy, then `do_it`
+    onto the input's own index range: ops `conv2ip` / `conv3ip`) and the default-constructed object, so this theorem and
+    `C19_conv3d_partial` speak about those calls too (output box = input box). -/
 theorem C19_conv2d_partial {K : Type} [CommSemiring K] [DecidableEq K]
     (kr0 kr1 : R) (k : Int → Int → K) (ir0 ir1 : R) (x : Int → Int → K) (y xx : Int) (h : isTrivial2D kr0 k = false) :
     arrayFilter2DAt kr0 kr1 k ir0 ir1 x y xx =
@@ -78,13 +82,77 @@ theorem C19_conv3d_is_trivial_fails :
     arrayFilter3DAt ⟨0, 0⟩ ⟨0, 0⟩ ⟨-1, 1⟩ (fun _ => witnessK2) ⟨0, 0⟩ ⟨0, 0⟩ ⟨0, 3⟩ (fun _ => witnessX2) 0 0 0 = 1 ∧
       conv3dAt ⟨0, 0⟩ ⟨0, 0⟩ ⟨-1, 1⟩ (fun _ => witnessK2) ⟨0, 0⟩ ⟨0, 0⟩ ⟨0, 3⟩ (fun _ => witnessX2) 0 0 0 = 5 := by decide
 
+/-! ### index-range arithmetic of the filter classes (`get_influenced_indices`, `get_influencing_indices`) -/
+
+/-- "index-range arithmetic" of `ArrayFilter1DUsingConvolution` — `get_influenced_indices` is SOUND for the filter it belongs
+    to: an output element outside the range it reports for the input's index range is what the boundary condition makes of
+    data that are not there: 0 (zero boundary condition), resp. (kernel sum)·(edge element of that side) (constant boundary
+    condition; an empty kernel is the identity filter, "sum" 1).  Every kernel, every index range. -/
+theorem C19_influenced_indices_sound {K : Type} [CommSemiring K] [DecidableEq K]
+    (jmin jmax : Int) (k : Int → K) (inMin inMax : Int) (x : Int → K) (i : Int)
+    (h : ¬ ((influencedRange ⟨jmin, jmax⟩ ⟨inMin, inMax⟩).lo ≤ i ∧ i ≤ (influencedRange ⟨jmin, jmax⟩ ⟨inMin, inMax⟩).hi)) :
+    arrayFilter1DAt .zero jmin jmax k inMin inMax x i = some 0 ∧
+    (inMin ≤ inMax → arrayFilter1DAt .constant jmin jmax k inMin inMax x i =
+      some ((if jmax + 1 - jmin = 0 then 1 else ∑ j ∈ Icc jmin jmax, k j) *
+        x (if i < (influencedRange ⟨jmin, jmax⟩ ⟨inMin, inMax⟩).lo then inMin else inMax))) :=
+  ⟨arrayFilter1DAt_zero_outside_influenced jmin jmax k inMin inMax x i h,
+   fun hin => arrayFilter1DAt_constant_outside_influenced jmin jmax k inMin inMax x i hin h⟩
+
+/-- `get_influencing_indices` is SOUND: the outputs on `outMin..outMax` depend on the input only through its elements inside
+    the range reported for `outMin..outMax` (zero boundary condition), resp. through the values of the edge-extended input
+    on that range (constant boundary condition: an edge element stands for all indices beyond it). -/
+theorem C19_influencing_indices_sound {K : Type} [CommSemiring K] [DecidableEq K]
+    (jmin jmax : Int) (k : Int → K) (inMin inMax : Int) (x x' : Int → K) (outMin outMax i : Int) (hi : outMin ≤ i ∧ i ≤ outMax) :
+    ((∀ m, (influencingRange ⟨jmin, jmax⟩ ⟨outMin, outMax⟩).lo ≤ m → m ≤ (influencingRange ⟨jmin, jmax⟩ ⟨outMin, outMax⟩).hi →
+        inMin ≤ m → m ≤ inMax → x m = x' m) →
+      arrayFilter1DAt .zero jmin jmax k inMin inMax x i = arrayFilter1DAt .zero jmin jmax k inMin inMax x' i) ∧
+    (inMin ≤ inMax →
+      (∀ m, (influencingRange ⟨jmin, jmax⟩ ⟨outMin, outMax⟩).lo ≤ m → m ≤ (influencingRange ⟨jmin, jmax⟩ ⟨outMin, outMax⟩).hi →
+        x (clamp inMin inMax m) = x' (clamp inMin inMax m)) →
+      arrayFilter1DAt .constant jmin jmax k inMin inMax x i = arrayFilter1DAt .constant jmin jmax k inMin inMax x' i) :=
+  ⟨arrayFilter1DAt_zero_congr_influencing jmin jmax k inMin inMax x x' outMin outMax i hi,
+   fun hin hx => arrayFilter1DAt_constant_congr_influencing jmin jmax k inMin inMax x x' outMin outMax i hin hi hx⟩
+
+/-- … and the influenced range is not larger than necessary ("the union of the supports of the PSF", ArrayFunctionObject.h):
+    the response to a unit impulse at `p` holds the first and the last kernel coefficient at its two ends. -/
+theorem C19_influenced_indices_attained {K : Type} [CommSemiring K] (jmin jmax : Int) (k : Int → K) (p : Int) (hk : jmin ≤ jmax) :
+    conv1dZeroAt jmin jmax k p p (fun m => if m = p then 1 else 0) ((influencedRange ⟨jmin, jmax⟩ ⟨p, p⟩).lo) = k jmin ∧
+    conv1dZeroAt jmin jmax k p p (fun m => if m = p then 1 else 0) ((influencedRange ⟨jmin, jmax⟩ ⟨p, p⟩).hi) = k jmax :=
+  conv1dZeroAt_impulse_ends jmin jmax k p hk
+
+/-- the same two soundness statements for `ArrayFilter2DUsingConvolution` (whose queries concern the OUTER index `y`),
+    for the filter as coded including its `is_trivial()` shortcut — at full strength (the shortcut, although it misjudges
+    kernels, does not read outside the reported ranges). -/
+theorem C19_influence_ranges_sound_2d {K : Type} [CommSemiring K] [DecidableEq K]
+    (kr0 kr1 : R) (k : Int → Int → K) (ir0 ir1 : R) (x x' : Int → Int → K) (or0 : R) (y xx : Int) :
+    (¬ ((influencedRange kr0 ir0).lo ≤ y ∧ y ≤ (influencedRange kr0 ir0).hi) → arrayFilter2DAt kr0 kr1 k ir0 ir1 x y xx = 0) ∧
+    (or0.lo ≤ y ∧ y ≤ or0.hi →
+      (∀ a b, (influencingRange kr0 or0).lo ≤ a → a ≤ (influencingRange kr0 or0).hi → ir0.lo ≤ a → a ≤ ir0.hi → x a b = x' a b) →
+      arrayFilter2DAt kr0 kr1 k ir0 ir1 x y xx = arrayFilter2DAt kr0 kr1 k ir0 ir1 x' y xx) :=
+  ⟨arrayFilter2DAt_outside_influenced kr0 kr1 k ir0 ir1 x y xx,
+   arrayFilter2DAt_congr_influencing kr0 kr1 k ir0 ir1 x x' or0 y xx⟩
+
+/-- … and for `ArrayFilter3DUsingConvolution` (outer index `z`) -/
+theorem C19_influence_ranges_sound_3d {K : Type} [CommSemiring K] [DecidableEq K]
+    (kr0 kr1 kr2 : R) (k : Int → Int → Int → K) (ir0 ir1 ir2 : R) (x x' : Int → Int → Int → K) (or0 : R) (z y xx : Int) :
+    (¬ ((influencedRange kr0 ir0).lo ≤ z ∧ z ≤ (influencedRange kr0 ir0).hi) →
+      arrayFilter3DAt kr0 kr1 kr2 k ir0 ir1 ir2 x z y xx = 0) ∧
+    (or0.lo ≤ z ∧ z ≤ or0.hi →
+      (∀ a b c, (influencingRange kr0 or0).lo ≤ a → a ≤ (influencingRange kr0 or0).hi → ir0.lo ≤ a → a ≤ ir0.hi →
+        x a b c = x' a b c) →
+      arrayFilter3DAt kr0 kr1 kr2 k ir0 ir1 ir2 x z y xx = arrayFilter3DAt kr0 kr1 kr2 k ir0 ir1 ir2 x' z y xx) :=
+  ⟨arrayFilter3DAt_outside_influenced kr0 kr1 kr2 k ir0 ir1 ir2 x z y xx,
+   arrayFilter3DAt_congr_influencing kr0 kr1 kr2 k ir0 ir1 ir2 x x' or0 z y xx⟩
+
 /-! ### padded-DFT route = direct route -/
 
 /-- "Filtering through the padded-DFT route equals direct convolution with the same kernel whenever … no wrap-around can
     occur": for the model of `ArrayFilterUsingRealDFTWithPadding<1>` (wrap-around placement of the kernel, padded length
     = kernel length, data copied with `index mod padded length`, circular convolution, copied back): if the data fit into
     the padded length and every kernel coefficient that wrap-around could reach from output index `i` is zero, the
-    result at `i` is `Σ_j k_j·in_{i-j}`. -/
+    result at `i` is `Σ_j k_j·in_{i-j}`.
+    (Extension round: the same model function also answers the in-place call, op `dftfip`, and — via
+    `C19_frequency_kernel_same_filter` — the objects built from a kernel in frequency space, ops `dftfq`.) -/
 theorem C19_circular_eq_linear {K : Type} [CommSemiring K]
     (kmin kmax : Int) (k : Int → K) (inMin inMax : Int) (x : Int → K) (outMin outMax i : Int)
     (hf : realLenOkForward (kmax + 1 - kmin).toNat = true) (hinv : realLenOkInverse (kmax + 1 - kmin).toNat = true)
@@ -117,6 +185,20 @@ theorem C19_dft_route_eq_direct_of_twice {K : Type} [CommSemiring K]
     ∃ f, dftFilter1 kmin kmax k inMin inMax x outMin outMax = some f ∧
       f i = ∑ j ∈ Icc kmin kmax, k j * ext inMin inMax x (i - j) :=
   dftFilter1_eq_direct_of_twice kmin kmax k inMin inMax x outMin outMax i a n hf hinv hcentre htwice hn hin hout hi
+
+/-- the kernel given in FREQUENCY space (`ArrayFilterUsingRealDFTWithPadding(kernel_in_frequency_space)`,
+    `set_kernel_in_frequency_space`): `set_padding_range` recovers, from the index range of
+    `fourier_for_real_data(kernel)`, exactly the kernel's 0-based index range (every even last length ≥ 2, arbitrary outer
+    lengths, any number of dimensions), so the model of the object built from the transformed kernel IS the model of the
+    object built from the kernel — `C19_circular_eq_linear`, `…_of_support`, `…_of_twice` therefore speak about both
+    constructors (the implementation side of this identity is the correspondence op `dftfq` and its oracle).
+    An index range not starting at 0, or an irregular one, is rejected (`Succeeded::no`, `error()` in the constructor). -/
+theorem C19_frequency_kernel_same_filter {K : Type} [Add K] [Mul K] [Zero K] (init : List Nat) (l : Nat) (hl : l % 2 = 0) (hpos : 0 < l)
+    (kp0 : List Int → K) (ibox : List R) (x : List Int → K) (obox : List R) (g : Bool) :
+    setPaddingRange true (freqBox (zeroBox (init ++ [l]))) = some (zeroBox (init ++ [l])) ∧
+    dftFilterFreqND true (freqBox (zeroBox (init ++ [l]))) kp0 ibox x obox g =
+      dftFilterND (zeroBox (init ++ [l])) kp0 ibox x obox g :=
+  ⟨setPaddingRange_freqBox init l hl hpos, dftFilterFreqND_eq init l hl hpos kp0 ibox x obox g⟩
 
 /-- NEGATIVE WITNESS: "padded length ≥ 2 × data length" alone is not sufficient when the kernel's index range is not
     centred: kernel `[1,1,1,1]` on `0..3`, data `[1,1]` on `0..1`; the padded-DFT route gives 2 at output index 0
@@ -271,6 +353,29 @@ theorem C19_convolution_theorem_inverse {K : Type} [Field K] (ω : K) (L : Nat) 
   inverse_dft_of_product ω L hω hL kp xp p hp
 
 /-! ### non-vacuity: the hypotheses are satisfiable by concrete, non-trivial instances -/
+
+/-- index ranges: kernel on `-1..2`, input on `0..9`: influenced range `-1..11`; output `3..5` is influenced by `1..6` -/
+example : influencedRange ⟨-1, 2⟩ ⟨0, 9⟩ = ⟨-1, 11⟩ ∧ influencingRange ⟨-1, 2⟩ ⟨3, 5⟩ = ⟨1, 6⟩ ∧
+    influencedRange ⟨0, -1⟩ ⟨0, 9⟩ = ⟨0, 9⟩ := by decide
+/-- … output index 12 is outside: 0 for the zero boundary condition, (kernel sum 10)·(last element 9) for the constant one -/
+example : arrayFilter1DAt .zero (-1) 2 (fun j => j + 2) 0 9 (fun m => m) 12 = some 0 ∧
+    arrayFilter1DAt .constant (-1) 2 (fun j => j + 2) 0 9 (fun m => m) 12 = some ((∑ j ∈ Icc (-1 : Int) 2, (j + 2)) * 9) := by
+  have h := C19_influenced_indices_sound (-1) 2 (fun j : Int => j + 2) 0 9 (fun m => m) 12 (by decide)
+  refine ⟨h.1, ?_⟩
+  have h2 := h.2 (by decide)
+  rw [h2]
+  decide
+/-- … and changing the input at index 0 (outside `1..6`) does not change the outputs `3..5` -/
+example : arrayFilter1DAt .zero (-1) 2 (fun j => j + 2) 0 9 (fun m => m) 4 =
+    arrayFilter1DAt .zero (-1) 2 (fun j => j + 2) 0 9 (fun m => if m = 0 then 100 else m) 4 :=
+  (C19_influencing_indices_sound (-1) 2 (fun j : Int => j + 2) 0 9 (fun m => m) (fun m => if m = 0 then 100 else m) 3 5 4 (by decide)).1
+    (by intro m h1 h2 _ _; have : (1 : Int) ≤ m := h1; rw [if_neg (by omega)])
+/-- frequency-space kernels: the transform of a `4 × 8` kernel has index range `0..3, 0..4`, from which the padding range
+    `0..3, 0..7` is recovered; a range starting at 1, and an irregular one, are rejected -/
+example : freqBox (zeroBox [4, 8]) = [⟨0, 3⟩, ⟨0, 4⟩] ∧ setPaddingRange true [⟨0, 3⟩, ⟨0, 4⟩] = some [⟨0, 3⟩, ⟨0, 7⟩] ∧
+    setPaddingRange true [⟨1, 4⟩, ⟨0, 4⟩] = none ∧ setPaddingRange false [⟨0, 3⟩, ⟨0, 4⟩] = none := by decide
+example : setPaddingRange true (freqBox (zeroBox ([4] ++ [8]))) = some (zeroBox ([4] ++ [8])) :=
+  (C19_frequency_kernel_same_filter (K := Int) [4] 8 (by decide) (by decide) (fun _ => 0) [] (fun _ => 0) [] true).1
 
 /-- a centred kernel of length 8 (`-4..3`), data and output on `2..5` (4 ≤ 8/2 indices) -/
 example : ∃ f, dftFilter1 (-4) 3 (fun j => j + 5) 2 5 (fun m => m * m) 2 5 = some f ∧
